@@ -172,7 +172,9 @@ func (e *reqEnv) checkCtx(ctx context.Context, spec reqSpec, ns, rv string) (str
 	if _, err := c.List(ctx, metav1.ListOptions{}); err != nil {
 		return fmt.Sprintf("%s client, namespace %q: second List failed: %v", spec.pkg, ns, err), nil
 	}
-	wi2, err := c.Watch(ctx, metav1.ListOptions{ResourceVersion: rv2, Watch: true})
+	// ... this time by a direct caller, client-go style: Watch() is a watch whatever the options' own
+	// Watch field says
+	wi2, err := c.Watch(ctx, metav1.ListOptions{ResourceVersion: rv2})
 	if err != nil {
 		return fmt.Sprintf("%s client, namespace %q: second Watch failed: %v", spec.pkg, ns, err), nil
 	}
@@ -206,6 +208,13 @@ func (e *reqEnv) checkCtx(ctx context.Context, spec reqSpec, ns, rv string) (str
 		q := map[string]bool{}
 		for _, kv := range parts {
 			q[kv] = true
+		}
+		if i == 3 {
+			// called without the Watch option: the path makes it a watch; watch=true may or may not be added
+			if !q["resourceVersion="+want] || len(parts) > 2 || (len(parts) == 2 && !q["watch=true"]) {
+				return fmt.Sprintf("%s client: query of the watch request made without the Watch option is %q, expected resourceVersion=%s (and at most watch=true)", spec.pkg, got[i].query, want), got
+			}
+			continue
 		}
 		if !q["watch=true"] || !q["resourceVersion="+want] || len(parts) != 2 {
 			return fmt.Sprintf("%s client: query of watch request #%d of one client instance is %q, expected exactly watch=true&resourceVersion=%s", spec.pkg, (i+1)/2, got[i].query, want), got
